@@ -21,7 +21,7 @@ def shard(sh: Shard, seed, wseed, cases):
         for case in cases:
             cr = rng("C01tcase", seed, wseed, case["id"])
             start, length = case["start"], case["length"]
-            S, B0 = make_blocks(cr, "random")
+            S, B0 = make_blocks(cr, cr.choice(["random", "tags"]))
             spa.struct.set_status_block(B0)
             rig.set_sim_block(S)
             installs = []
